@@ -29,6 +29,8 @@ class Scalar (α : Type) extends Add α, Sub α, Mul α, Div α, Neg α, OfScien
   eqb : α → α → Bool
   /-- embedding of natural numbers (e.g. the number of splits) -/
   ofNat : Nat → α
+  /-- `ceil` as a natural number (`torch.ceil(...).int()` for non-negative arguments) -/
+  ceilNat : α → Nat
 
 namespace Scalar
 
@@ -49,6 +51,7 @@ instance : Scalar Float where
   leb a b := a ≤ b
   eqb a b := a == b
   ofNat n := n.toFloat
+  ceilNat x := (Float.ceil x).toUInt64.toNat
 
 /-- `torch.where(c, a, b)` / a Python conditional on a scalar -/
 @[inline] def sel {α : Type} (c : Bool) (a b : α) : α := if c then a else b
@@ -78,3 +81,4 @@ instance : Scalar Int where
   leb a b := decide (a ≤ b)
   eqb a b := decide (a = b)
   ofNat n := (n : Int)
+  ceilNat x := x.toNat
